@@ -665,6 +665,24 @@ def gen_call(rng, case, kind):
                 kw[rng.choice(gn + ["spread"])] = rng.choice(BAD_VALUES)
         return {"m": rng.choice(["set_params"] * 3 + ["set_spread_params"]), "args": [cv(x) for x in a],
                 "kwargs": {k: cv(x) for k, x in kw.items()}, "style": "malformed"}, None
+    if kind == "halfway":
+        # one invalid value in the middle of an otherwise valid full call: the setter raises half-way and
+        # leaves a partial update behind (sub-models out of sync)
+        sn = set_names(case)
+        a = pos_vals(sn)
+        j = rng.randrange(len(a))
+        T, L = _edge_names(case["graph"])
+        lnl_pos = [k for k, nm in enumerate(sn) if any(nm == l or nm.endswith("_" + l) for l in L)]
+        later = [k for k in lnl_pos if k - 1 in lnl_pos]       # not the first LNL parameter of its block
+        if later and rng.random() < 0.7:
+            j = rng.choice(later)
+        if rng.random() < 0.6:
+            a[j] = rng.choice(BAD_VALUES)
+            return {"m": rng.choice(["set_params", "set_params", "set_spread_params", "set_lnl_spread_params"]),
+                    "args": [cv(x) for x in a], "kwargs": {}, "style": "malformed"}, None
+        kw = dict(zip(gn, [valid_value(rng, nm) for nm in gn]))
+        kw[sn[j]] = rng.choice(BAD_VALUES)
+        return {"m": "set_params", "args": [], "kwargs": {k: cv(x) for k, x in kw.items()}, "style": "malformed"}, None
     if kind == "sub_setter":
         meth = rng.choice(["set_tumor_spread_params", "set_lnl_spread_params", "set_spread_params", "set_distribution_params"])
         a = [gen.gen_value(rng) if rng.random() < 0.9 else rng.randint(1, 4) / 2.0 for _ in range(rng.randint(0, n + 2))] \
@@ -677,12 +695,21 @@ def gen_call(rng, case, kind):
 
 
 KINDS = ["positional", "positional", "keyword", "keyword", "kw_subset", "kw_over_pos", "global", "unknown", "partial",
-         "surplus", "side_global", "malformed", "sub_setter", "identity"]
+         "surplus", "side_global", "malformed", "halfway", "halfway", "sub_setter", "identity"]
 
 
 def gen_case(rng, tier, cls=None, cfg=None, kind=None):
     if cls is None:
-        cls, cfg = rng.choice(all_configs()) if rng.random() < 0.8 else rng.choice(all_configs()[:5])
+        r = rng.random()
+        cfgs = all_configs()
+        if r < 0.2:
+            cls, cfg = cfgs[0]
+        elif r < 0.5:
+            cls, cfg = rng.choice(cfgs[1:5])
+        elif r < 0.92:
+            cls, cfg = rng.choice(cfgs[5:-1])
+        else:
+            cls, cfg = cfgs[-1]
     base = rng.choice([2, 2, 3])
     g = gen_graph_for(rng, cls, base, 3 if base == 2 else 2)
     mt = rng.randint(1, 4)
@@ -704,6 +731,11 @@ def gen_case(rng, tier, cls=None, cfg=None, kind=None):
         case["calls"].append(call)
         if rel:
             case["rel"] = rel
+    if kind in ("malformed", "halfway") and rng.random() < 0.6:
+        # what happens AFTER a call that raised (get_params, another valid call)
+        follow, _ = gen_call(rng, case, rng.choice(["positional", "keyword", "kw_subset"]))
+        follow["style"] = "after-raise"
+        case["calls"].append(follow)
     case["kind"] = kind
     resolve_own(case)
     return case
@@ -760,7 +792,9 @@ def boundary_cases(rng, base):
 def candidates(case):
     out = []
     calls = case["calls"]
-    for k in range(len(calls) - 1):
+    for k in range(len(calls) - (1 if case.get("rel") else 0)):
+        if len(calls) < 2:
+            break
         c = copy.deepcopy(case)
         del c["calls"][k]
         out.append(c)
@@ -806,6 +840,7 @@ def nontrivial(case):
 def report_corr(ctx, case, mm):
     def still(cs):
         return [m is not None for m in corr_failing(ctx, cs, "shrink")]
+    case = {k: v for k, v in case.items() if k != "rel"}     # the correspondence does not need the relation
     small = shrink(ctx, case, candidates, still, budget_s=25.0)
     mm2 = corr_failing(ctx, [small], "final")[0] or mm
     if mm2 is mm:
